@@ -53,7 +53,8 @@ def V(name):
 
 
 class EGen:
-    def __init__(self, draw):
+    def __init__(self, draw, noresume=False):
+        self.noresume = noresume    # handlers never execute RESUME (C08)
         self.draw = draw
         self.stats = {}
         self.n = 0
@@ -128,7 +129,83 @@ class EGen:
                 A.wider('%', f.t))], [], '!'), N(7))
         raise ValueError(shape)
 
+    def program_noresume(self):
+        """ON ERROR GOTO handlers that carry on with GOTO / RETURN / END
+        instead of RESUME: the failing statements sit in GOSUB routines, in
+        loops and at module level, with pending operands in mid-expression."""
+        top = [
+            A.Dim('dim', [A.Decl('ar', '!', [(N(1), N(3))], True)]),
+            A.Assign(V('d%'), N(1)), A.Assign(V('k%'), N(1)),
+            A.Assign(V('m%'), N(1)), A.Assign(V('b&'), A.Num('&', 5, '5&')),
+            A.OnError('hz')]
+        routines = []
+        handler_cases = []
+        nfail = self.i(1, 3)
+        for q in range(nfail):
+            for _ in range(self.i(0, 2)):
+                top.append(A.Print([A.Str('p%d' % q), ';', V('v#')]))
+            kind = self.pick(['div0', 'div0', 'overflow', 'subscript',
+                              'illegal'])
+            brk, f, _ = self.failing_expr(kind)
+            shape = self.pick(['assign_deep', 'assign', 'print_later_item',
+                               'sub_arg', 'func_arg', 'subscript'])
+            if kind == 'subscript' and shape == 'subscript':
+                shape = 'assign_deep'
+            stmt = self.wrap(f, shape)
+            cont = 'c%dz' % q
+            where = self.pick(['gosub', 'gosub', 'module', 'loop'])
+            self.note('noresume_' + where)
+            after = [A.LabelDef(cont), A.Print([A.Str('after%d' % q), ';',
+                                                V('d%')])]
+            if where == 'gosub':
+                sub = 's%dz' % q
+                top.append(A.Gosub(sub))
+                routines.extend([A.LabelDef(sub), brk, stmt] + after +
+                                [A.Return()])
+                act = self.pick(['goto', 'goto', 'return', 'end'])
+            elif where == 'loop':
+                top.append(A.For(V('i%d%%' % q), N(1), N(2), None,
+                                 [brk, stmt] + after))
+                act = self.pick(['goto', 'end'])
+            else:
+                top.extend([brk, stmt] + after)
+                act = self.pick(['goto', 'goto', 'end'])
+            self.note('noresume_action_' + act)
+            if act == 'goto':
+                bodyk = [A.Goto(cont)]
+            elif act == 'return':
+                bodyk = [A.Return()]
+            else:
+                bodyk = [A.Print([A.Str('bye')]), A.End()]
+            handler_cases.append(([('v', N(q + 1))], bodyk))
+        top.append(A.Gosub('gz'))
+        top.append(A.CallSub('ps', [N(1), N(2)]))
+        top.append(A.Print([A.FCall('fq#', [N(3)], '#'), ';', V('v#')]))
+        top.append(A.End())
+        top.extend(routines)
+        top.extend([A.LabelDef('gz'), A.Print([A.Str('g')]), A.Return()])
+        top.extend([A.LabelDef('hz'),
+                    A.Assign(V('hc%'), A.Bin('+', V('hc%'), N(1), '%')),
+                    A.Print([A.Str('E'), ';', A.BCall('ERR', [], '%'), ';',
+                             V('hc%')]),
+                    A.Assign(V('d%'), N(2)), A.Assign(V('k%'), N(2)),
+                    A.Assign(V('m%'), N(2)),
+                    A.Assign(V('b&'), A.Num('&', 7, '7&')),
+                    A.Select(V('hc%'), handler_cases,
+                             [A.Print([A.Str('more')]), A.End()]),
+                    A.End()])
+        top.append(A.Proc('sub', 'ps', [A.Param('p1%', '%'),
+                                        A.Param('p2#', '#')], False,
+                          [A.Print([A.Str('s'), ';', V('p1%'), ';',
+                                    V('p2#')])]))
+        top.append(A.Proc('function', 'fq#', [A.Param('q1#', '#')], False,
+                          [A.RetAssign('fq#', A.Bin('*', V('q1#'), N(2),
+                                                    '#'), '#')], '#'))
+        return A.Program(top)
+
     def program(self):
+        if self.noresume:
+            return self.program_noresume()
         mode = self.pick(['handler', 'handler', 'handler', 'next', 'inproc'])
         self.note('mode_' + mode)
         top = [
@@ -304,8 +381,8 @@ def V(name):               # noqa: F811  (typed variable reference)
 
 
 @st.composite
-def error_programs(draw):
-    g = EGen(draw)
+def error_programs(draw, noresume=False):
+    g = EGen(draw, noresume=noresume)
     return g.program(), g.stats
 
 
